@@ -225,6 +225,8 @@ def result_kinds(ka, op, kb):
             return set()
         if DM.FAMILY[ka] != DM.FAMILY[kb]:
             return set()
+        if ka == kb:
+            return {ka}                  # "same-kind sum/difference -> that kind"
         return {k for k in DM.VEC if DM.FAMILY[k] == DM.FAMILY[ka]}
     va = DM.ZERO if na else DM.VEC[ka]
     vb = DM.ZERO if nb else DM.VEC[kb]
@@ -300,10 +302,8 @@ def run_combo(ctx, idx, A, op, Bq, tier, matrix=None):
                 if DM.FAMILY.get(type(back).__name__) != DM.FAMILY[ka] or abs(bs - sa_) > 1e-9 * max(abs(sa_), abs(sb_)) + 1e-300:
                     wit = {'law': '(a+b)-b == a', 'a': [ka, va, ua], 'b': [kb, vb, ub], 'got': [type(back).__name__, back.value, back.unit]}
                     sk = type(s).__name__
-                    if is_d10(sk, '-', kb, sa_ + sb_, sb_, bs, type(back).__name__):
-                        ctx.known_finding(d10_id(sk), wit, case)
-                    else:
-                        ctx.violation('C06:inverse-law-add-sub', wit, case)
+                    # (the known finding D10 never reaches this law on the tree it was found on: whatever fails here is new)
+                    ctx.violation('C06:inverse-law-add-sub', dict(wit, kind_of_the_sum=sk), case)
         if res[0] in ('ok', 'd10') and op == '-' and ka not in NUM and kb not in NUM:
             try:
                 other = -(mk(kb, ub, vb) - mk(ka, ua, va))
@@ -315,7 +315,9 @@ def run_combo(ctx, idx, A, op, Bq, tier, matrix=None):
                 sa_, sb_ = si_of(ka, ua, va), si_of(kb, ub, vb)
                 if abs(os_ - res[1]) > 1e-9 * max(abs(sa_), abs(sb_)) + 1e-300:
                     wit = {'law': 'a-b == -(b-a)', 'a': [ka, va, ua], 'b': [kb, vb, ub], 'a-b': res[1], '-(b-a)': os_}
-                    if res[0] == 'd10' or is_d10(kb, '-', ka, sb_, sa_, -os_, type(other).__name__):
+                    if (res[0] == 'd10' or is_d10(kb, '-', ka, sb_, sa_, -os_, type(other).__name__)) and \
+                            {ka, kb} in ({'Angle', 'AngularPosition'}, {'Time', 'TimeInterval'}):
+                        # D10 is keyed by its inputs: the difference of an Angle and an AngularPosition / a TimeInterval and a Time
                         ctx.known_finding(d10_id(ka if res[0] == 'd10' else kb), wit, case)
                     else:
                         ctx.violation('C06:inverse-law-antisymmetry', wit, case)
